@@ -17,6 +17,9 @@ type PropFunc func(c *core.Ctx, r *core.Report)
 
 var registry = map[string]PropFunc{}
 
+// curCtx is the program the running property function analyses (for helpers without a context parameter).
+var curCtx *core.Ctx
+
 func register(id string, f PropFunc) { registry[id] = f }
 
 func Props() []string {
@@ -38,6 +41,7 @@ func Get(id string) PropFunc {
 	}
 	return func(c *core.Ctx, r *core.Report) {
 		an.SetProgram(c)
+		curCtx = c
 		f(c, r)
 		for _, e := range extra[id] {
 			e(c, r)
